@@ -374,10 +374,11 @@ def same(a, b):
 # operations
 # ------------------------------------------------------------------------------------------------
 POSITIVE = ["mu", "theta", "clock_rate", "wshape", "kappa", "cgd_alpha", "cgd_rate", "mg_kappa", "mg_alpha",
-            "gtr_rates", "raw_rates", "cc_x", "kappa_rate"]
+            "gtr_rates", "raw_rates", "cc_x", "kappa_rate", "vbase", "v_neg_slice", "v_long", "v_head", "v_bool", "v_first"]
 REALS = ["loc", "cat_ab", "cat_a", "lin_x", "log_scale", "log_kappa"]
 SIMPLEX = ["hky_freqs", "gtr_freqs", "cc_w"]
-DISTS = ["normal", "prior_kappa", "prior_theta", "prior_tail"]
+DISTS = ["normal", "prior_kappa", "prior_theta", "prior_tail", "prior_v_neg_int", "prior_v_long", "prior_v_bool",
+         "prior_v_head"]
 
 
 def value_for(g: Graph, target: str, rng):
@@ -984,6 +985,21 @@ def run(ck: Check):
     for u in singles[:: (1 if ck.thorough() else 9)]:
         if u["op"] != "propose":
             handle([dict(u)], "exhaustive/cold+1")
+    # overlapping sibling views of one parameter (negative int, negative slices, LongTensor, bool mask; one
+    # disjoint pair as control): a model attached to one view is evaluated, the value is assigned through
+    # ANOTHER view (setter / edit+reassign / real operator / draw), the first must not stay stale
+    vpairs = [(a, b) for a in G.VIEWS for b in G.VIEWS if a != b]
+    for i, (va, vb) in enumerate(vpairs):
+        ea = {"op": "eval", "node": "prior_" + va, "cell": 0}
+        v = value_for(g0, vb, rng)
+        ups = [{"op": "assign", "target": vb, "value": v.reshape(-1).tolist(), "shape": list(v.shape)}]
+        if ck.thorough() or i % 3 == 0:
+            ups.append(gen_reassign(g0, rng, vb))
+            ups.append({"op": "draw", "dist": "prior_" + vb, "seed": rng.randrange(1 << 30), "rsample": False})
+            if vb != "v_neg_int":
+                ups.append({"op": "propose", "kind": "scaler", "params": [vb], "seed": rng.randrange(1 << 30), "ref": 1, "tune": 0.5})
+        for u in ups:
+            handle([dict(ea), dict(u), dict(ea)], "sibling-views")
     # the plain TimeTreeModel seen only through node_heights by its coalescent
     for upd in ("assign", "inplace", "reassign"):
         v = value_for(g0, "heights3", rng)
